@@ -5,6 +5,7 @@ package verifharness
 // projection of the implementation state that spec/ChfSeqTrace.tla judges.
 
 import (
+	"hash/crc32"
 	"reflect"
 	"sort"
 	"crypto/sha1"
@@ -397,6 +398,16 @@ func (d *SeqDriver) runOne(b *Behaviour) {
 			t0 := time.Now()
 			if st.A == "create" {
 				notify := env.SinkURL + "/n/" + st.U + "/" + st.S
+				// the form of the callback URI is the consumer's business: a trailing slash, an empty segment, a query
+				// (chosen from the behaviour and the session; the model compares what was registered with what was called)
+				switch crc32.ChecksumIEEE([]byte(b.ID+"/"+st.S)) % 5 {
+				case 1:
+					notify += "/"
+				case 2:
+					notify = env.SinkURL + "/n//" + st.U + "/" + st.S
+				case 3:
+					notify += "?consumer=" + st.U + "&x=%2F"
+				}
 				nfc := map[string]any{"nFName": st.C, "nodeFunctionality": "SMF"}
 				if i := strings.Index(st.Plmn, "/"); i > 0 {
 					nfc["nFPLMNID"] = map[string]any{"mcc": st.Plmn[:i], "mnc": st.Plmn[i+1:]}
